@@ -127,6 +127,11 @@ def gen_seq(rng):
     prog += [("SFromJson", s, s2), ("OSDescr", s), ("OSDescr", s2), ("OSEq", s, s2), ("OSEq", s2, s)]
     if forge_ok:
         prog += [("OSForge", s, True, True, False), ("OSForge", s2, True, True, False)]
+    if rng.random() < 0.35:
+        # the same content read a second time after the first read-back was edited: every read is a fresh object
+        s3 = regs.S()
+        prog += [("SSetSequencing", s2, 1, "nrep", 9), ("SSetAmp", s2, chans[0], 7), ("SFromJson", s, s3),
+                 ("OSDescr", s3), ("OSEq", s, s3), ("OSEq", s3, s)]
     return {"prog": prog, "kind": "sequence", "regs": [s, s2]}
 
 
@@ -145,6 +150,9 @@ def oracle(case, impl):
     d0, d1 = R[f"O{key}Descr"][0], R[f"O{key}Descr"][1]
     if isinstance(d0, lang.Err) or isinstance(d1, lang.Err):
         return [f"description raised: {d0} {d1}"]
+    for extra in R[f"O{key}Descr"][2:]:
+        if not isinstance(extra, lang.Err) and json.loads(json.dumps(extra)) != json.loads(json.dumps(d0)):
+            out.append("a second read of the same file (after the first read-back was edited) does not have the original's description")
     n0, n1 = json.loads(json.dumps(d0)), json.loads(json.dumps(d1))
     if n0 != n1:
         diff = first_diff(n0, n1)
